@@ -18,7 +18,8 @@ import (
 //
 //	terminals  'a'  "ab"  "aB"i  ""  [ab]  [^a]  [A-C]i  [\pL]  .
 //	rule reference R (an ordinary rule with a display name, or a left-recursive rule when the
-//	             flag set has -support-left-recursion), &{..} !{..} #{..} %{l}
+//	             flag set has -support-left-recursion), rule reference T (a rule that is a single
+//	             terminal, with a display name), &{..} !{..} #{..} %{l}
 //	unary      ? * + & ! label: action
 //	binary     sequence, choice, recovery //{l}
 //
@@ -44,7 +45,7 @@ type crossSpec struct {
 
 func crossLeaves() []*peg.Expr {
 	return []*peg.Expr{peg.Lit("a"), peg.Lit("ab"), peg.LitI("aB"), peg.Lit(""), peg.Cls(false, false, "a", "b"), peg.Cls(true, false, "a"),
-		peg.Cls(false, true, "A-C"), peg.Cls(false, false, `\pL`), peg.Any(), peg.Ref("R"), peg.AndCode(0), peg.NotCode(0), peg.StateCode(0), peg.Throw("l")}
+		peg.Cls(false, true, "A-C"), peg.Cls(false, false, `\pL`), peg.Any(), peg.Ref("R"), peg.Ref("T"), peg.AndCode(0), peg.NotCode(0), peg.StateCode(0), peg.Throw("l")}
 }
 
 var crossMemo = map[int][]*peg.Expr{}
@@ -117,7 +118,16 @@ func crossBodies(n int) []*peg.Expr {
 // crossGrammar puts a body under the start rule; lr selects the left-recursive helper rule.
 func crossGrammar(body *peg.Expr, lr bool) *peg.Grammar {
 	g := &peg.Grammar{Rules: []*peg.Rule{{Name: "S", Display: "start", Expr: peg.Action(0, peg.Seq(peg.Label("v", body.Clone()), peg.AndCode(0)))}}}
-	if len(peg.RefsOf(body)) > 0 {
+	refs := map[string]bool{}
+	for _, r := range peg.RefsOf(body) {
+		refs[r] = true
+	}
+	if refs["T"] {
+		defer func() {
+			g.Rules = append(g.Rules, &peg.Rule{Name: "T", Display: "tee", Expr: peg.Cls(false, false, "a", "b")})
+		}()
+	}
+	if refs["R"] {
 		if lr {
 			g.Rules = append(g.Rules, &peg.Rule{Name: "R", Expr: peg.Choice(peg.Action(0, peg.Seq(peg.Label("l", peg.Ref("R")), peg.Label("r", peg.Lit("b")))), peg.Lit("a"))})
 		} else {
@@ -174,7 +184,10 @@ func runCross(c *ShardCtx, idx *int, s *crossSpec) bool {
 				return false
 			}
 			c.Res.Counters["cross_family_grammars"]++
-			hasRef := len(peg.RefsOf(body)) > 0
+			hasRef := false
+			for _, r := range peg.RefsOf(body) {
+				hasRef = hasRef || r == "R"
+			}
 			for _, lr := range []bool{false, true} {
 				if lr && !hasRef {
 					continue
@@ -211,6 +224,7 @@ func runCross(c *ShardCtx, idx *int, s *crossSpec) bool {
 				if len(optg) > 0 {
 					co := s.cmp
 					co.FlatVal = true
+				co.SkipNoMatch = true // the optimizer joins terminals: the expected list names the terminals of the optimized grammar
 					co.EventKey = flatKey(s.cmp.EventKey)
 					runGrammar(c, g, &family{gens: optg, inputs: s.inputs, opts: s.opts, scripts: scripts, cmp: co, extra: s.extra, nontrivial: s.nontrivial, refOpts: s.refOpts, confEvery: 397, confQuota: 1})
 				}
@@ -252,4 +266,31 @@ func crossTopPred(g *peg.Grammar) *peg.Expr {
 		return seq.Kids[1]
 	}
 	return nil
+}
+
+// crossInputsSmall is a sub-set of crossInputs for checks that multiply every case by many
+// scripts and option sets.
+var crossInputsSmall = func() [][]byte {
+	var out [][]byte
+	for _, s := range []string{"", "a", "b", "ab", "ba", "aa", "aab", "aB", "é", "a\na", "\x80", "a\x80b"} {
+		out = append(out, []byte(s))
+	}
+	return out
+}()
+
+// crossFaultScripts: the two predicate scripts, and every block in turn returning an error,
+// panicking with an error, panicking with a string (all blocks try to change the stores).
+func crossFaultScripts(g *peg.Grammar) []map[int]*rtapi.Block {
+	scripts := crossPredScripts(g)
+	blocks := g.Blocks()
+	for k, b := range blocks {
+		s := map[int]*rtapi.Block{}
+		for _, b2 := range blocks {
+			s[b2.ID] = &rtapi.Block{Ops: rtapi.OpShallow | rtapi.OpCloner | rtapi.OpGlobal}
+		}
+		s[b.ID].Err = "e" + itoa(b.ID)
+		s[b.ID].Panic = k % 3
+		scripts = append(scripts, s)
+	}
+	return scripts
 }
